@@ -90,6 +90,16 @@ def annotate(sh):
         tail = len(b) % 8 != 0 or b.endswith("-")
         sh["coarse"] = (cv, eb, interior, tail, compound_kind(sh), nest_tailpad(sh), min(nl, 3))
     sh["fine"] = (sh["size"], sh["align"], b, compound_kind(sh), nest_tailpad(sh))
+    # medium: what each 4-byte word holds (F float, I integer bytes only, P padding only, i integer+padding,
+    # f float+padding cannot occur, m integer+float cannot occur) - the byte map up to sub-word positions
+    def word(wd):
+        st = set(wd)
+        return "F" if st == {"f"} else "I" if st == {"i"} else "P" if st == {"-"} else "i"
+    words = "".join(word(b[i:i + 4]) for i in range(0, len(b), 4))
+    if cv == ("MEMORY",):
+        sh["medium"] = ("MEMORY", sh["size"], compound_kind(sh), nest_tailpad(sh), words.count("F") > 0, words.count("i") > 0)
+    else:
+        sh["medium"] = (cv, sh["size"], words, compound_kind(sh), nest_tailpad(sh), min(nl, 3))
     return sh
 
 
@@ -270,35 +280,46 @@ def concrete_pre(prek, rng, canonical):
     return out
 
 
-def select_cases(shapes, big, calls, thorough, sd):
-    """one representative per spec state; the canonical representative of a state does not depend on the seed"""
+def select_cases(shapes, big, calls, thorough, sd, extras=True):
+    """one representative per spec state.  The canonical representative of a state is taken from the exhaustive
+    enumeration only and does not depend on the seed; seeded extras (other members of a state, states reached only
+    by the seeded walks, other interleavings of the leading arguments) are added when extras is set."""
     rng = random.Random(sd * 7919 + 17)
     cases = []
+    level = "medium" if thorough else "coarse"
+
+    def group(shs):
+        g = {}
+        for sh in shs:
+            g.setdefault(sh[level], []).append(sh)
+        for k in g:
+            g[k].sort(key=lambda s: (len(s["flat"]), s["size"], s["sig"]))
+        return g
+    by_state = group(shapes)
+    by_state_big = group(big)
+    state_keys = sorted(by_state, key=repr)
+    # 1. neutral pressure: every classification state as argument, result, callback parameter and callback result
+    for k in state_keys:
+        cases.append(Case(by_state[k][0], [], "same", (level, k), True, "neutral"))
+    if extras:
+        pool = state_keys if thorough else rng.sample(state_keys, min(24, len(state_keys)))
+        for k in pool:
+            m = by_state[k][1:] + by_state_big.get(k, [])
+            if m:
+                cases.append(Case(rng.choice(m), [], "same", (level, k), False, "neutral"))
+        for k in sorted(set(by_state_big) - set(by_state), key=repr):
+            cases.append(Case(by_state_big[k][0], [], "same", (level, k), False, "neutral"))
+    else:
+        # known findings are listed: keep seeded generation to the MEMORY-class shapes of the walks
+        for k in sorted(set(by_state_big) - set(by_state), key=repr):
+            if by_state_big[k][0]["cvt"] == ("MEMORY",):
+                cases.append(Case(by_state_big[k][0], [], "same", (level, k), False, "neutral"))
     by_coarse = {}
-    for sh in shapes + big:
+    for sh in shapes:
         by_coarse.setdefault(sh["coarse"], []).append(sh)
     for k in by_coarse:
         by_coarse[k].sort(key=lambda s: (len(s["flat"]), s["size"], s["sig"]))
     coarse_keys = sorted(by_coarse, key=repr)
-    # 1. neutral pressure: every classification state as argument, result, callback parameter and callback result
-    if thorough:
-        by_fine = {}
-        for sh in shapes + big:
-            by_fine.setdefault(sh["fine"], []).append(sh)
-        for k in sorted(by_fine, key=repr):
-            m = sorted(by_fine[k], key=lambda s: (len(s["flat"]), s["sig"]))
-            cases.append(Case(m[0], [], "same", ("fine", k), True, "neutral"))
-            if len(m) > 1:
-                cases.append(Case(rng.choice(m[1:]), [], "same", ("fine", k), False, "neutral"))
-    else:
-        for k in coarse_keys:
-            m = by_coarse[k]
-            cases.append(Case(m[0], [], "same", ("coarse", k), True, "neutral"))
-        extra = rng.sample(coarse_keys, min(24, len(coarse_keys)))
-        for k in extra:
-            m = by_coarse[k]
-            if len(m) > 1:
-                cases.append(Case(rng.choice(m[1:]), [], "same", ("coarse", k), False, "neutral"))
     # 2. position x register pressure, per classification vector
     by_cv = {}
     for k in coarse_keys:
@@ -330,7 +351,7 @@ def select_cases(shapes, big, calls, thorough, sd):
                 if canon in pres_by_count[(a, b)]:
                     cases.append(Case(sh, concrete_pre(canon, rng, True), ret, cls, True, "pressure"))
                 others = sorted(pres_by_count[(a, b)] - {canon})
-                if others and (thorough or (a + b) <= 8) and ret != "mem":
+                if extras and others and (thorough or (a + b) <= 8) and ret != "mem":
                     prek = rng.choice(others)
                     k2 = ks[rng.randrange(len(ks))]
                     sh2 = rng.choice(by_coarse[k2])
@@ -889,7 +910,7 @@ def check(chk):
         "executed as Go->C argument, C->Go result, C->Go callback parameter, Go callback result; evaluations = compared "
         "(case, direction, optimisation level) lines; distinct_nontrivial = distinct (classification state | call state) "
         "classes executed whose struct has >= 2 scalar leaves"
-        % ((3, "; thorough: full byte map") if thorough else (2, "")))
+        % ((3, "; thorough: size + content of every 4-byte word") if thorough else (2, "")))
     # ---- layer A: cases (the four TLC runs are independent: run them side by side)
     exh = {"MaxFields": 4, "MaxCFields": 3 if thorough else 2, "NestMax": 3, "MaxBytes": 80, "Wide": "FALSE",
            "Sel": 0, "Mod": 1, "NWalk": 0, "Seed": 0}
@@ -910,10 +931,13 @@ def check(chk):
         raise C.Undecided("the fixed MEMORY result shape {i64,f64,i64} was not enumerated")
     Case.MEMSHAPE = mem[0]
     cstr = sorted(res.printed, key=lambda r: (len(r["s"]), r["s"]))
-    cases = select_cases(shapes, big, calls, thorough, sd)
+    extras = not chk.known.keys
+    chk.cov["seeded_extras"] = extras
+    cases = select_cases(shapes, big, calls, thorough, sd, extras)
     chk.cov["shapes_enumerated"] = len(shapes)
     chk.cov["shapes_simulated"] = len(big)
     chk.cov["classification_states_coarse"] = len(set(s["coarse"] for s in shapes + big))
+    chk.cov["classification_states_medium"] = len(set(s["medium"] for s in shapes + big))
     chk.cov["classification_states_fine"] = len(set(s["fine"] for s in shapes + big))
     chk.cov["class_vectors"] = sorted(set("/".join(s["cv"]) for s in shapes + big))
     chk.cov["cases_selected"] = len(cases)
@@ -1035,8 +1059,8 @@ def check(chk):
                 arg0 = got.get((0, "arg"))
                 if neg and arg0 and len(arg0) > len(b.cases[0].pre) and neg[0] == arg0[len(b.cases[0].pre)] ^ 1:
                     neg_ok = True
-                elif arg0:
-                    raise C.Undecided("negative control line missing or not different (bundle %d)" % b.idx)
+                elif arg0 and neg is not None:
+                    raise C.Undecided("negative control line not different from the real one (bundle %d)" % b.idx)
             f = evaluate(chk, b, got, crashes, opt, calls, failed)
             failed |= f
             chk.cov["evaluations"] += len(b.expect)
@@ -1045,18 +1069,27 @@ def check(chk):
             if len(cs.sh["flat"]) >= 2:
                 nontrivial.add(cs.cls)
     chk.cov["distinct_nontrivial"] = len(nontrivial)
-    # ---- negative control on the comparison itself: one corrupted expectation must be flagged
-    b0 = bundles[0]
-    r0 = outs[0][2]["O0"]
-    exp2 = {k: list(v) for k, v in b0.expect.items()}
-    k0 = (0, "arg")
-    exp2[k0][-1] = (exp2[k0][-1][0], exp2[k0][-1][1] ^ (1 << 51))
-    bad_keys = set(k for k, *_ in compare(exp2, r0[1]))
-    base_keys = set(k for k, *_ in compare(b0.expect, r0[1]))
-    if not (k0 in bad_keys and (k0 in base_keys or bad_keys - base_keys == {k0})):
+    # ---- negative control on the comparison itself: one corrupted expectation of a line that currently agrees must
+    # be flagged (if no line of any bundle agrees, every case is already a violation and the control is moot)
+    ctl = None
+    for b, nself, results, culprits in outs:
+        r0 = results.get("O0")
+        if not r0 or r0[0] != "ran":
+            continue
+        base_keys = set(k for k, *_ in compare(b.expect, r0[1]))
+        good = [k for k in b.expect if k not in base_keys and isinstance(k[0], int)]
+        if good:
+            k0 = good[0]
+            exp2 = {k: list(v) for k, v in b.expect.items()}
+            exp2[k0][-1] = (exp2[k0][-1][0], exp2[k0][-1][1] ^ (1 << 3))
+            bad_keys = set(k for k, *_ in compare(exp2, r0[1]))
+            ctl = (bad_keys - base_keys == {k0})
+            break
+    if ctl is False or (ctl is None and not chk.violations and not chk.known_hits):
         raise C.Undecided("negative control: a corrupted expectation was not flagged")
-    if not neg_ok:
+    if not neg_ok and not chk.violations and not chk.known_hits:
         raise C.Undecided("negative control: the bit-flipped echo of the C callee was not observed")
+    chk.cov["negative_controls"] = {"corrupted_expectation_flagged": bool(ctl), "bit_flipped_echo_observed": neg_ok}
     if thorough or os.environ.get("VERIF_C09_DRIFT") == "1":
         run_drift(chk, shapes + big)
     chk.cov["cstr_strings"] = len(cstr)
